@@ -162,7 +162,19 @@ template <int S> static void explore(Ctx &c, long &id) {
   }
 }
 
+// the public per-dimension aliases name the class of their order and dimension (seeded change C13-m11: one wrong entry in the alias table)
+#define VF_ALIAS2(pre, d) SplineTrajectory::pre##d##D
+#define VF_ALIAS(pre, d) VF_ALIAS2(pre, d)
+static void check_aliases(Ctx &c, long &id) {
+  long my = id++; if (!c.mine(my)) return; std::string unit = str(my); if (!c.begin(unit)) return; ++c.st.evaluations; c.st.seen("aliases"); ++c.st.comparisons;
+  const bool ok_c = std::is_same<VF_ALIAS(CubicSpline, VDIM), SplineTrajectory::CubicSplineND<VDIM>>::value, ok_q = std::is_same<VF_ALIAS(QuinticSpline, VDIM), SplineTrajectory::QuinticSplineND<VDIM>>::value,
+             ok_s = std::is_same<VF_ALIAS(SepticSpline, VDIM), SplineTrajectory::SepticSplineND<VDIM>>::value, ok_p = std::is_same<VF_ALIAS(PPoly, VDIM), SplineTrajectory::PPolyND<VDIM>>::value,
+             ok_d = VDIM != 3 || std::is_same<SplineTrajectory::PPoly, SplineTrajectory::PPolyND<3>>::value;
+  if (!(ok_c && ok_q && ok_s && ok_p && ok_d)) c.st.violate(unit, fmt("public alias table, dimension %d: %s%s%s%s%s does not name the class of that order and dimension", VDIM, ok_c ? "" : "CubicSpline<D>D ", ok_q ? "" : "QuinticSpline<D>D ", ok_s ? "" : "SepticSpline<D>D ", ok_p ? "" : "PPoly<D>D ", ok_d ? "" : "PPoly "), {{"what", "alias-table"}});
+  c.st.cls("public aliases");
+}
+
 int main(int argc, char **argv) {
   Args a = parse_args(argc, argv);
-  return supervise(a, [&](Ctx &c) { long id = 0; explore<2>(c, id); explore<3>(c, id); explore<4>(c, id); c.st.notes["dim"] = str(D); });
+  return supervise(a, [&](Ctx &c) { long id = 0; explore<2>(c, id); explore<3>(c, id); explore<4>(c, id); check_aliases(c, id); c.st.notes["dim"] = str(D); });
 }
